@@ -77,6 +77,20 @@ func runC09(x *X) {
 			})
 	})
 	c09TallHook(x, targets, full)
+	longs := LongTexts(`"`)
+	x.Explore("long-texts", ExploreOpts{ShardDepth: 1, Bound: fmt.Sprintf("%d long texts (dense lengths around 64..4096 bytes, hostile characters at start/middle/doubled/end/only, many lines) as header and body cell; all render targets", len(longs))}, func(c *Chooser) {
+		s := longs[c.Choose(len(longs))]
+		b := NewBuilder(full)
+		b.T.AddHeaders("h", s)
+		b.T.AddRowItems(s, "x")
+		b.T.AddRowItems("y")
+		b.HasHeader, b.Header = true, []string{"h", s}
+		b.Rows = []*RefRow{{Cells: []string{s, "x"}, Attached: true}, {Cells: []string{"y"}, Attached: true}}
+		b.AddItemTag("long_text")
+		c.Logf("header (h, <%d bytes>), rows (<%d bytes>, x), (y)", len(s), len(s))
+		x.Transition(3)
+		c09RenderAll(x, c, b, targets)
+	})
 	// systematic long family: anomalous suffixes after every prefix of a long regular build
 	x.Explore("long-prefix+anomaly", ExploreOpts{ShardDepth: 2, Bound: fmt.Sprintf("prefix of a 12-op rectangular build (13) x all suffixes of <=%d ops over the full alphabet", x.Pick(1, 2))}, func(c *Chooser) {
 		b := NewBuilder(full)
